@@ -299,6 +299,31 @@ fn permeable<N: VisitWith<HasJsx>>(n: &N, define_component: bool) -> bool {
     h.found
 }
 
+
+fn arrow_sig(n: &ArrowExpr) -> String {
+    let params: Vec<String> = n.params.iter().map(|p| to_code(p)).collect();
+    fnv(&format!(
+        "arrow-sig async={} gen={} params=[{}] tp={} ret={}",
+        n.is_async,
+        n.is_generator,
+        params.join(","),
+        n.type_params.as_ref().map(|t| to_code(&**t)).unwrap_or_default(),
+        n.return_type.as_ref().map(|t| to_code(&**t)).unwrap_or_default()
+    ))
+}
+
+fn function_sig(n: &Function) -> String {
+    let params: Vec<String> = n.params.iter().map(|p| to_code(p)).collect();
+    fnv(&format!(
+        "fn-sig async={} gen={} params=[{}] tp={} ret={}",
+        n.is_async,
+        n.is_generator,
+        params.join(","),
+        n.type_params.as_ref().map(|t| to_code(&**t)).unwrap_or_default(),
+        n.return_type.as_ref().map(|t| to_code(&**t)).unwrap_or_default()
+    ))
+}
+
 /// input side: pre-order fingerprints of the maximal statements/expressions that contain neither
 /// JSX nor (under resolveType) a `defineComponent(...)` call.
 struct FrameIn {
@@ -332,6 +357,21 @@ impl Visit for FrameIn {
             }
         }
     }
+    fn visit_arrow_expr(&mut self, n: &ArrowExpr) {
+        // reached only when the arrow is not fingerprinted as a whole (it contains JSX): what the user wrote
+        // about the function itself — async, generator, parameters without JSX, type parameters, return type —
+        // must survive even if the body is rebuilt
+        if !n.params.iter().any(|p| permeable(p, self.dc)) {
+            self.fps.push(arrow_sig(n));
+        }
+        n.visit_children_with(self)
+    }
+    fn visit_function(&mut self, n: &Function) {
+        if !n.params.iter().any(|p| permeable(p, self.dc)) {
+            self.fps.push(function_sig(n));
+        }
+        n.visit_children_with(self)
+    }
     fn visit_call_expr(&mut self, n: &CallExpr) {
         // a call of Vue's defineComponent may get options added: an options object literal is
         // looked at entry by entry (each written entry must survive), everything else as usual
@@ -356,6 +396,14 @@ struct FrameOut {
     fps: Vec<String>,
 }
 impl Visit for FrameOut {
+    fn visit_arrow_expr(&mut self, n: &ArrowExpr) {
+        self.fps.push(arrow_sig(n));
+        n.visit_children_with(self)
+    }
+    fn visit_function(&mut self, n: &Function) {
+        self.fps.push(function_sig(n));
+        n.visit_children_with(self)
+    }
     fn visit_module_item(&mut self, n: &ModuleItem) {
         self.fps.push(fnv(&to_code(n)));
         n.visit_children_with(self)
